@@ -417,6 +417,8 @@ def run_case(case, keep_log=False):
             counters["clock"] = clk.counters()
         problems = None
         psi_resid = None
+        if case.get("_copy_grid_to") and os.path.exists(grid_path):
+            shutil.copy(grid_path, case["_copy_grid_to"])
         if res["outcome"] == "returned":
             if not os.path.exists(grid_path):
                 problems = ["entry point returned but no grid file was written"]
@@ -437,6 +439,33 @@ def run_case(case, keep_log=False):
                     psi_resid = opsi(g, cap.mesh, newton_gave_way=newton_gave_way)
         cap.mesh = None
         violation = classify(case, res, problems, counters)
+        # A failure that the documented contract turns into an exception (chain exhausted
+        # -> SolutionError, deadline passed -> FunctionTimedOut) was raised inside
+        # hypnotoad, yet generation returned normally: that is only acceptable if the
+        # failure was genuinely harmless, i.e. the grid equals the fault-free grid of the
+        # same inputs to the refinement tolerance.  Otherwise a grid computed from
+        # partial / unrefined data was written without a trace.
+        absorbed = (counters.get("clock") or {}).get("timeout_fired", 0) + \
+            (counters.get("buggify") or {}).get("exhausted", 0)
+        if violation is None and res["outcome"] == "returned" and absorbed \
+                and not case.get("_reference_run"):
+            ref_case = dict(case, kind="none", fault={}, np=1, _reference_run=True,
+                            choices=None, check_psi=False)
+            ref_case["options"] = {k: v for k, v in case["options"].items()
+                                   if k != "refine_timeout"}
+            ref_grid = os.path.join(d, "ref.nc")
+            ref_case["_copy_grid_to"] = ref_grid
+            ref = run_case(ref_case)["outcome"][0]
+            counters["absorbed_failures"] = absorbed
+            if ref == "returned" and os.path.exists(ref_grid):
+                bad, _ = gridio.diff_tol(gridio.read_grid(grid_path),
+                                         gridio.read_grid(ref_grid), 1e-6, 1e-5)
+                counters["absorbed_compared"] = 1
+                if bad:
+                    violation = {"class": "FAILURE_SWALLOWED",
+                                 "detail": f"{absorbed} internal SolutionError/"
+                                           "FunctionTimedOut failures were swallowed and the "
+                                           f"grid differs from the fault-free grid: {bad[:3]}"}
         if violation is None and psi_resid is not None and psi_resid["violations"]:
             violation = {"class": "OFF_SURFACE", "detail": psi_resid["violations"][0]}
         return {"engine": "c12-fault", "case": dict(case, choices=res.get("choices")),
